@@ -70,6 +70,12 @@ CHECKS["C17"] = dict(
     text="Every ROA set of at most 2 (thorough: 3) ROAs and every announcement set of at most 2 (thorough: 3) announcements over nested-prefix universes (IPv4 /22../24 under a /8 plus an outside prefix; IPv6 /46../48 under a /32; edge: /0, /1, /31, /32, ::/0, /127, /128), max lengths at prefix length / in between / family maximum, ROA origins {0,1,2}, announcement origins {1,2,3}, held resources {all, half}, scope limits {none, half, quarter}, duplicated ROA configuration / duplicated RISwhois line: each announcement in the CA's resources gets the RFC 6811 verdict (valid / invalid / not found), each reported ROA's authorises and disallows sets equal the brute-force attribution, and removing/replacing all ROAs as suggested leaves every valid announcement valid.",
     note="Sub-kinds of invalid (length/ASN/AS0) are not distinguished. Announcements with origin AS0 are not in the alphabet. Announcements outside the CA's resources or outside the requested scope carry no obligation (the property does not speak about them). The seen-by threshold of the RISwhois parser is always exceeded. Replay: kcheck C17 --replay <file>.")
 
+CHECKS["C12"] = dict(
+    engine="E4", category="model_checking", design="4/C12",
+    technique="bounded-exhaustive enumeration of harness-signed CMS requests (signing key x claimed sender x recipient x addressed CA x request kind; sender substitution inside signed content; RFC 8181 key x publisher URL x kind) on forked copies of four states of the real CA and publication server, plus every single-bit corruption of valid messages sent to CaManager::rfc6492 / RepositoryManager::rfc8181",
+    text="Every request of the matrix (4 identity keys: alice's, bobby's, alice's replacement, an unregistered one; senders alice/bobby/unknown; recipients; addressed CA with and without children; list, issue, issue with a limit in the sibling's space, revoke own key, revoke the sibling's key; publication list/publish/update/withdraw inside and outside the own base URI) in states fresh / issued / alice's identity replaced / parent's identity rolled: answered only when signed by the key registered for the claimed sender (the replaced key is refused, the new one accepted); refused => the complete canonical state and the published content are unchanged; answered => reply validates under the server side's current identity key, is addressed to the sender, lists/issues only within the sender's entitlement, never changes the sibling's certificate or objects outside the sender's base URI. Every single-bit corruption of valid list/issue/revoke/publication messages is refused without stored-state change, or decodes to the identical content.",
+    note="CMS signing time is 'now' on the frozen clock (expiry not varied). A wrong recipient handle in an otherwise valid message is not a refusal condition of the property. Properly signed requests refused on semantic grounds may leave a failure record in the status store (C19 demands it). Replay: kcheck C12 --replay <file>.")
+
 CHECKS["C10"] = dict(
     engine="E1", category="model_checking", design="4/C10",
     technique="explicit-state exploration (fork-checkpointed DFS) of publication-delta sequences from several publishers on the real RepositoryManager against a per-publisher reference map",
